@@ -71,9 +71,14 @@ func RunDataScenario(r *rand.Rand, w io.Writer, seq *int) int {
 				case 0:
 					call("get", s.ID, k, 0, func() int { return val(s.ds.Value(k)) })
 				case 1:
+					if lr.Intn(4) == 0 {
+						// an explicit nil: the key is present on this level and shadows the parent (logged as 1)
+						call("set", s.ID, k, 1, func() int { s.ds.SetValue(k, nil); return 0 })
+						break
+					}
 					mu.Lock()
 					*seq++
-					v := *seq
+					v := *seq + 10
 					mu.Unlock()
 					call("set", s.ID, k, v, func() int { s.ds.SetValue(k, v); return 0 })
 				default:
@@ -109,6 +114,9 @@ func RunDataScenario(r *rand.Rand, w io.Writer, seq *int) int {
 		for _, k := range keys {
 			if own[k] == 1 {
 				vals[k] = val(lk.Value(k))
+				if vals[k] == 0 {
+					vals[k] = 1 // present with nil
+				}
 			}
 		}
 		lk.Commit()
